@@ -662,10 +662,13 @@ func (m *Manager) publishBlockInternal(ctx context.Context) error {
 				return nil
 			}
 		} else {
-			if batchData.Before(lastHeaderTime) {
-				return fmt.Errorf("timestamp is not monotonically increasing: %s < %s", batchData.Time, m.getLastBlockTime())
-			}
 			m.logger.Info("creating and publishing block", "height", newHeight, "num_tx", len(batchData.Transactions))
+		}
+
+		// reject a batch (empty or not) stamped earlier than the previous block before it is saved:
+		// a saved block that can never pass validation would be reused as pending block forever
+		if batchData.Before(lastHeaderTime) {
+			return fmt.Errorf("timestamp is not monotonically increasing: %s < %s", batchData.Time, m.getLastBlockTime())
 		}
 
 		header, data, err = m.createBlock(ctx, newHeight, lastSignature, lastHeaderHash, batchData)
